@@ -185,7 +185,7 @@ def check(ctx, log, text, key, nontrivial, origin, sample=None):
     s = work.both(text)
     ctx.hit('parse')
     events = list(log.events)
-    if work.uncertain(s.ref) or work.skip_known(ctx, text, s.ref):
+    if work.uncertain(s.ref, s.ref_err) or work.skip_known(ctx, text, s.ref):
         ctx.case(key, False)
         return
     ctx.case(key, nontrivial, sample=sample)
@@ -205,7 +205,7 @@ def check(ctx, log, text, key, nontrivial, origin, sample=None):
                 s2 = work.both(t)
             except RecursionError:
                 return False
-            if work.uncertain(s2.ref) or work.skip_known(ctx, t, s2.ref):
+            if work.uncertain(s2.ref, s2.ref_err) or work.skip_known(ctx, t, s2.ref):
                 return False
             j = judge(s2, list(log.events))
             return j is not None and j[0] == mech
@@ -277,7 +277,7 @@ def replay(ctx, witness):
         t = witness.get(key)
         if t:
             v, s = _one(ctx, t)
-            if v and not work.uncertain(s.ref):
+            if v and not work.uncertain(s.ref, s.ref_err):
                 ctx.violation(v[0], {'text': t}, v[1] + '\ninput: %r' % t)
 
 
